@@ -9,13 +9,41 @@ THEOREMS = ['C12_snapshot_pure', 'C12_snapshot_is_get_stats', 'C12_hits_never_de
             'C12_times_nonneg_and_monotone', 'C12_reregister_keeps_data', 'C12_wellformed', 'C12_report_hits_monotone',
             'C12_label_stays_reported', 'C12_snapshot_entry_is_label_hits']
 LEVEL = 'proof'
-FEATURES = [{'rereg'}, {'rereg', 'gen'}, {'rereg', 'rec'}, {'gen'}, set(), {'rereg', 'twins'},
-            {'snapinside', 'snapmodes'}, {'snapinside', 'snapmodes', 'gen', 'rec'}, {'bigtime', 'snapmodes'}, {'bare', 'snapmodes'},
-            {'rereg', 'snapinside', 'snapmodes'}]
+FEATURES = [{'rereg'}, {'rereg', 'gen'}, {'rereg', 'rec'}, {'gen'}, set(), {'rereg', 'twins'}]
+# every reading method, also from inside running code; long lines; plain enable()/disable() windows
+GLUE = [{'snapinside', 'snapmodes'}, {'snapinside', 'snapmodes', 'gen', 'rec'}, {'bigtime', 'snapmodes'}, {'bare', 'snapmodes'},
+        {'rereg', 'snapinside', 'snapmodes'}]
+# a function registered again whose later calls reach a line that lies BEFORE the lines recorded so far
+REREG_BRANCH = e1common.fixed([('main.py', '''# re-registration, then a branch not taken before
+def f(x, d):
+    if x:
+        y = x + 1
+        A(3)
+    else:
+        y = 0
+        A(5)
+    return y
+def main(P):
+    P.reg('f')
+    with P.prof:
+        P.fn('f')(0, 0)
+    P.snap()
+    P.reg('f')
+    with P.prof:
+        P.fn('f')(1, 0)
+    P.snap(1)
+    P.deco('f')
+    P.fn('f')(0, 0)
+    P.fn('f')(1, 0)
+    P.snap(2)
+''')], ['fixed-rereg-branch'])
 
 
 def run(tier, seed):
-    return e1common.run_property(PROP, MODULE, THEOREMS, tier, seed, 150, 20000, FEATURES, 'mono', ticks=(0, 1, 7), extra_cases=[e1common.FIXED_REREG])
+    res = e1common.run_property(PROP, MODULE, THEOREMS, tier, seed, 150, 20000, FEATURES, 'mono', ticks=(0, 1, 7),
+                                extra_cases=[e1common.FIXED_REREG, REREG_BRANCH])
+    res2 = e1common.run_property(PROP, MODULE, THEOREMS, tier, seed + 2, 60, 6000, GLUE, 'mono', ticks=(0, 1, 7))
+    return e1common.merge_results(res, res2, 'glue_part')
 
 
 def replay(path):
